@@ -177,6 +177,7 @@ class C06(CheckBase):
                 cm.init_mdib()
         if not w.settle(5.0):
             ctx.violation('C06.initial', 'no-quiescence', 'consumer not idle 5 virtual s after init_mdib')
+        state['loaded'] = (cm.sequence_id, cm.instance_id)
         mbox_faults_so_far = bool(mbox.dropped or mbox.held or any(k in w.net.fault_counts for k in ('dup', 'replay', 'reordered_delivery')))
         if not mbox_faults_so_far:
             # reports that arrived while GetMdib was in flight are neither lost nor applied twice
@@ -257,6 +258,11 @@ class C06(CheckBase):
         if audit:
             ctx.violation('C06.lookups', audit[0].split('[')[0].split(':')[0], f'{where}: {audit[:3]}')
         seq = snap['group'][1:]
+        if state.get('loaded') is not None and tuple(seq) != tuple(state['loaded']):
+            ctx.violation('C06.frozen', 'sequence-or-instance-id-replaced-without-reload',
+                          f'{where}: the consumer MDIB was loaded for (SequenceId, InstanceId) {state["loaded"]} and now '
+                          f'carries {tuple(seq)} although the application did not reload (a report of the new provider '
+                          f'incarnation was applied)')
         last = state['last'].get(seq)
         # frozen after a detected change
         if cstate == 'invalid':
